@@ -55,3 +55,52 @@ def kernel_exact(c):
          "harness alone proves nothing, kernel_exact decides", must_reach=("L0 is the interval containing now", "L2 is the interval containing now"), compare_result=True)
 def kernel_candidates(c):
     return _kernel(c, "cheap")
+
+
+# ------------------------------------------------------------------------------------------------ propagation into the emitted blob
+
+
+def _prop_params(tier):
+    out = []
+    for state in ("root", "seed"):
+        for win in ([(361, 9, 4, 2, 2), (361, 10, 0, 2, 2), (362, 0, 0, 2, 2)] if tier == "quick" else
+                    [(361, 9, 4, 2, 2), (361, 10, 0, 2, 2), (362, 0, 0, 2, 2), (270, 31, 31, 5, 5), (564, 0, 1, 3, 3), (361, 9, 0, 2, 5 * B)]):
+            out.append(dict(state=state, win=win))
+    return out
+
+
+@harness(P, params=_prop_params, max_steps=1500000,
+         bounds="ncrypt_protect_secret served from the cache, clock symbolic inside windows around L2 / L1 / L0 boundaries (+- 2 ticks; thorough: more epochs and a 50 h window); cache "
+         "state: a loaded root key, or a previously retrieved seed-key envelope for the same L0 at a solver-chosen position at or after the clock's (same or next L1, any L2); the key "
+         "identifier parsed back from the emitted blob must name the interval containing the clock", outside="clock instants outside the windows (the kernel harness covers every instant)",
+         must_reach=("blob names the interval containing now",))
+def propagation(c, state, win):
+    import dpapi_ng
+    from dpapi_ng import _blob, _gkdi
+
+    from . import e2e
+    from vlib.api import any_of
+
+    lo, hi = e2e.window(*win)
+    w = e2e.new_world(c, lo, hi)
+    t = w.t_ns
+    ft = t // 100 + EPOCH
+    l0, l1, l2 = ft // (1024 * B), (ft // (32 * B)) % 32, (ft // B) % 32
+    cache = dpapi_ng.KeyCache()
+    sid = e2e.SIDS[0]
+    if state == "root":
+        c.call(cache.load_key, c.bytes("root", 64), e2e.RK)
+    else:
+        # an envelope obtained earlier over RPC (e.g. while unprotecting a blob written by a host whose clock is ahead)
+        l0c = c.concretize(l0)
+        e1 = c.int("env_l1", 0, 31)
+        e2 = c.int("env_l2", 0, 31)
+        c.assume(all_of([any_of([e1 == l1, e1 == l1 + 1]), any_of([e1 > l1, e2 >= l2])]))
+        sd = _blob.SIDDescriptor(sid).get_target_sd()
+        env = _gkdi.GroupKeyEnvelope(1, 2, l0c, e1, e2, e2e.RK, "SP800_108_CTR_HMAC", _gkdi.KDFParameters("SHA512").pack(), "DH", b"", 512, 2048, "d.t", "f.t",
+                                     c.bytes("l1k", 64), c.bytes("l2k", 64))
+        c.call(cache._store_key, sd, env)
+    blob = c.call(dpapi_ng.ncrypt_protect_secret, c.bytes("pt", 3), sid, root_key_identifier=e2e.RK, cache=cache)
+    k = c.call(_blob.DPAPINGBlob.unpack, blob).key_identifier
+    c.check(all_of([k.l0 == l0, k.l1 == l1, k.l2 == l2]), "blob names the interval containing now")
+    return True
